@@ -55,6 +55,9 @@ def _run(ctx, chk):
             continue
         ns, name = v[2]
         nsf = ns[1][2][0][2] if isinstance(ns, tuple) and ns[0] == "ref" and ns[1][1] == selfo and len(ns[1][2]) == 1 else None
+        if nsf is None and isinstance(ns, tuple) and ns[0] == "refval" and isinstance(ns[1], tuple) and ns[1][0] == "field" \
+                and ns[1][1] in (("val", selfo), selfo) and ns[1][2] is None:
+            nsf = ns[1][3]      # `let namespace = self.namespace;` (a Copy field read into a local) then `&namespace`
         chk.require(nsf is not None and nsf != fld, "G1", nb.defp + ":namespace", nb.span, "namespace argument is %s" % short(ns), describe_path(r))
         # name = bytes(to_string(ctr)) : peel reference / deref wrappers, then as_bytes, then to_string
         t = name
